@@ -1,9 +1,20 @@
 HOOK_COMMITS = ["7de202d"]
+FIX_COMMITS = ["7a73b90", "307c7cf", "73e9739", "b6ad768", "06a0422", "37593fd"]
 
 NOTE_COMMON = ("Trusted: Lean kernel (axioms propext/Classical.choice/Quot.sound only), the hand-written model's "
                "fidelity outside the sampled correspondence, rustc/std and third-party crates as black boxes, the guarded hooks.")
 
 CLAIMS = {
+    "C03": {
+        "level": "Kernel-checked theorems, for every input text, every `execute` function (hence every command list and option set) and every "
+                 "completion order of the workers: get_lines is lossless and cuts exactly after each newline; sorting by index undoes any "
+                 "permutation, so the collected records / the rewritten file are the in-order concatenation of the per-line results; the "
+                 "plain, delimiter and template renderers commute with concatenation, with the exact framing-newline and whole-buffer-sentinel "
+                 "relation stated for stdout. get_lines is compared model-vs-code every run and the proved relation is evaluated on the real "
+                 "binary (--linewise vs one run per line; stdin/file/-i, serial/parallel, plain/delimiter/template/JSON).",
+        "note": NOTE_COMMON + " rayon is assumed to run each closure once and to deliver results that are a permutation of the indexed units (the theorem covers every permutation).",
+        "technique": "Lean 4 proof (induction; core mergeSort/Perm lemmas) parametric in execute + differential correspondence + metamorphic relation on the real binary",
+    },
     "C14": {
         "level": "Kernel-checked theorems for every record list / field content / template / delimiter: sentinel passthrough, "
                  "join-by-delimiter, JSON string escape round trip and control-freedom, object = last-wins key-sorted map, template "
